@@ -73,6 +73,7 @@ def plan(tier, seed):
 	for func in ('pairwise', 'pairwise-flat', 'matrix'):
 		for dtype in ('u2', 'i8'):
 			tasks.append(('t_small_full', dict(func=func, dtype=dtype)))
+	tasks.append(('t_mixed_widths', dict()))
 	for N, T, P, dq, dr in sch:
 		tasks.append(('t_sched_child', dict(N=N, T=T, P=P, dq=dq, dr=dr)))
 	return tasks
@@ -286,6 +287,47 @@ def t_small_full(func, dtype):
 	return sh
 
 
+def t_mixed_widths():
+	"""References given as a plain list / tuple whose signatures have DIFFERENT integer widths (a narrow first one, wider later ones holding
+	indices beyond the narrow type's range), queries likewise: every order of four such signatures, every bulk function, chunk sizes, one and
+	several queries."""
+	from gambit.metric import jaccarddist, jaccarddist_array, jaccarddist_matrix, jaccarddist_pairwise
+	from gambit._cython.threads import omp_set_num_threads
+	sh = Shard()
+	pool = [np.array([1, 5], dtype='u2'), np.array([1, 70000], dtype='u4'), np.array([5, 70000, 2 ** 40], dtype='u8'), np.array([], dtype='u2'), np.array([1, 5, 65535], dtype='i4')]
+	omp_set_num_threads(2)
+	for order in itertools.permutations(range(len(pool)), 4):
+		arrs = [pool[i] for i in order]
+		for kind, refs in (('list', list(arrs)), ('tuple', tuple(arrs))):
+			for nq in (1, 2, 3):
+				queries = [pool[(order[0] + j) % len(pool)] for j in range(1, nq + 1)]
+				exp = np.array([[f32bits(jaccarddist(q, a)) for a in arrs] for q in queries], dtype=np.uint32)
+				for chunk in (None, 1, 3):
+					sh.evals += 1
+					case = dict(mixed_widths=True, order=list(order), container=kind, queries=nq, chunk=chunk, func='matrix')
+					try:
+						got = jaccarddist_matrix(queries, refs, chunksize=chunk).view(np.uint32)
+					except Exception as e:
+						sh.violation('bulk-call-raised', case, 'result', repr(e))
+						continue
+					if got.shape != exp.shape or not np.array_equal(got, exp):
+						sh.violation('cell-mismatch', case, exp.tolist(), got.tolist())
+					else:
+						sh.nontrivial += 1
+				sh.evals += 1
+				got = jaccarddist_array(queries[0], refs).view(np.uint32)
+				if not np.array_equal(got, exp[0]):
+					sh.violation('cell-mismatch', dict(mixed_widths=True, order=list(order), container=kind, queries=1, chunk=None, func='array'), exp[0].tolist(), got.tolist())
+			sh.evals += 1
+			pw = jaccarddist_pairwise(refs).view(np.uint32)
+			e2 = np.array([[f32bits(jaccarddist(a, b)) if ia != ib else 0 for ib, b in enumerate(arrs)] for ia, a in enumerate(arrs)], dtype=np.uint32)
+			if not np.array_equal(pw, e2):
+				sh.violation('cell-mismatch', dict(mixed_widths=True, order=list(order), container=kind, queries=0, chunk=None, func='pairwise'), e2.tolist(), pw.tolist())
+	sh.count('mixed_width_reference_lists', sh.evals)
+	sh.sample(dict(family='mixed-widths', pool=[str(a.dtype) for a in pool]))
+	return sh
+
+
 def t_big(container, tier):
 	"""Collections larger than the default query chunk size (1000) and than any plausible block size: 1500 (thorough 5000) references, chunk sizes
 	none / 1000 / 999 / 64 / 7, thread counts 1 / 4 / 16, index selections (all, reversed, every 3rd with repeats), all three bulk functions;
@@ -494,6 +536,8 @@ def finalize(agg, tier):
 
 
 def replay(case, kind=None):
+	if case.get('mixed_widths'):
+		return [v for v in t_mixed_widths().violations if v['case'] == case][:1] or t_mixed_widths().violations[:1]
 	global DEFAULT
 	sh = Shard()
 	if case.get('big'):
